@@ -5,6 +5,7 @@ import (
 	"math"
 	"os"
 	"sort"
+	"strings"
 	"sync"
 
 	"github.com/sahandsafizadeh/qeep/component/layers"
@@ -149,10 +150,11 @@ type trun struct {
 	pool   *sim.Pool
 	obs    []uint64
 	notes  []string
-	marks  []uint64 // simulated time (relative to the task's start) at which each BackPropagate call began
-	rmarks []uint64 // simulated time at which each random-constructor / Init call began
-	rngFP  []uint64 // value fingerprints of the tensors returned by random constructors (>= 4 elements)
-	bad    string   // a random constructor returned values outside its configured support
+	marks  []uint64    // simulated time (relative to the task's start) at which each BackPropagate call began
+	rmarks []uint64    // simulated time at which each random-constructor / Init call began
+	rngFP  []uint64    // value fingerprints of the tensors returned by random constructors (>= 4 elements)
+	rngSeq [][]float64 // first elements of each random tensor, normalised to the standard uniform / normal
+	bad    string      // a random constructor returned values outside its configured support
 }
 
 // runTask executes one task's program. inCall, when non-nil, is toggled
@@ -305,6 +307,20 @@ func runTask(e *env20, steps []sim.Step, inCall *bool) *trun {
 					lo, hi = -12*math.Sqrt(2./5), 12*math.Sqrt(2./5)
 				}
 			}
+			// normalised head of the tensor: two calls whose underlying variates
+			// coincide are not independent draws, whatever their parameters
+			if len(vals) >= 4 && !(st.Op == "init" && c10InitKinds[st.N%len(c10InitKinds)] == "full") {
+				head := make([]float64, 4)
+				uniform := st.Op == "randu" || (st.Op == "init" && strings.HasSuffix(c10InitKinds[st.N%len(c10InitKinds)], "uniform"))
+				for i := range head {
+					if uniform {
+						head[i] = (vals[i] - lo) / (hi - lo)
+					} else {
+						head[i] = (vals[i] - (lo+hi)/2) / ((hi - lo) / 24)
+					}
+				}
+				tr.rngSeq = append(tr.rngSeq, head)
+			}
 			for i, v := range vals {
 				if !(v >= lo && v < hi) && tr.bad == "" {
 					tr.bad = fmt.Sprintf("%s %v (kind %d): element %d = %v outside its configured support [%v, %v)", st.Op, st.F, st.N, i, v, lo, hi)
@@ -400,7 +416,7 @@ func (c20) Generate(r *sim.Rand, tier string) *sim.Scenario {
 	}
 	enum1 := r.Bool(0.0012)
 	if tier == "thorough" {
-		enum1 = r.Bool(0.03)
+		enum1 = r.Bool(0.008)
 	}
 	if enum1 {
 		ntasks = 2 // small scenario, every single-preemption schedule
@@ -875,7 +891,10 @@ func (c20) Generate(r *sim.Rand, tier string) *sim.Scenario {
 			if len(cands) > 0 {
 				a := cands[r.Intn(len(cands))]
 				m := marks[a]
-				k0 = int(m[r.Intn(len(m))]) + r.Intn(150)
+				k0 = int(m[r.Intn(len(m))]) // from the very start of the call: the tasks then advance in lockstep
+				if r.Bool(0.5) {
+					k0 += r.Intn(150)
+				}
 				sc.Cfg["first"] = float64(a)
 			}
 		}
@@ -1296,6 +1315,34 @@ func c20rngOracle(runs []*trun) string {
 				return fmt.Sprintf("tasks %d and %d received element-wise identical tensors from random constructors", j, i)
 			}
 			seen[fp] = i
+		}
+	}
+	type hd struct {
+		task int
+		v    []float64
+	}
+	var heads []hd
+	for i, r := range runs {
+		if r == nil {
+			continue
+		}
+		for _, h := range r.rngSeq {
+			heads = append(heads, hd{i, h})
+		}
+	}
+	for a := 0; a < len(heads); a++ {
+		for b := a + 1; b < len(heads); b++ {
+			same := true
+			for k := 0; k < 4; k++ {
+				x, y := heads[a].v[k], heads[b].v[k]
+				if !(math.Abs(x-y) <= 1e-9*(1+math.Abs(x))) {
+					same = false
+					break
+				}
+			}
+			if same {
+				return fmt.Sprintf("two random-constructor calls (tasks %d and %d) returned tensors whose first four elements are the same underlying variates (%v): the draws are not independent", heads[a].task, heads[b].task, heads[a].v)
+			}
 		}
 	}
 	return ""
